@@ -281,6 +281,22 @@ class EndianFlow:
         prog = self.prog
         if depth > 6:
             return False, "too deep"
+        # symbolic form first: a derivation written as a conditional, an if statement, a lookup table or a helper
+        if isinstance(expr, (ast.Name, ast.Call, ast.IfExp, ast.Subscript)) and not (isinstance(expr, ast.Name) and expr.id in fi.params):
+            try:
+                from .sym import Sym
+                sy = Sym(prog, fi, fi.cls)
+                env, _g = sy.env_at(expr)
+                v = sy.expr(expr, env)
+                cd = canonical_derivation(v, prog, fi.module)
+            except Exception:
+                cd = None
+            if cd is not None:
+                mask, flag, a, b = cd
+                if not (flag == "kTocBigEndian" and a == ">" and b == "<"):
+                    return False, "byte-order derivation has the wrong flag or polarity (flag %s: %r if set else %r)" % (flag, a, b)
+                ok = own_mask_canon(self.ctx, fi, mask)
+                return (ok, "derived from the segment's own ToC mask" if ok else "the ToC mask used is not the segment's own mask")
         if isinstance(expr, ast.Name):
             if expr.id in fi.params:
                 if (fi.qual, expr.id) in self.like:
@@ -556,6 +572,88 @@ def bl2(ctx, R):
                     code, c.name, expected.get(code, "?"), size, "yes" if fb else "missing"))
 
 
+def canonical_derivation(v, prog=None, mod=None):
+    """-> (mask, flag name, value if set, value if clear) for a byte-order selection in normal form:
+         ('>' if MASK & toc_properties[flag] else '<'),  the same with != 0 / bool(...),  or a two-entry table indexed by that test"""
+    from .sem import match, W, find
+    if not (isinstance(v, tuple) and v):
+        return None
+    t = a = b = None
+    if v[0] == "phi":
+        t, a, b = v[1], v[2], v[3]
+    elif v[0] == "sub":
+        table = v[1]
+        if prog is not None and mod is not None:
+            table = _global_value(prog, mod, table)
+        if table[0] == "dict" and len(table[1]) == 2:
+            d = {k: val for k, val in table[1]}
+            if ("const", True) in d and ("const", False) in d:
+                t, a, b = v[2], d[("const", True)], d[("const", False)]
+            elif ("const", 1) in d and ("const", 0) in d:
+                t, a, b = v[2], d[("const", 1)], d[("const", 0)]
+    if t is None:
+        return None
+    for _ in range(3):
+        if isinstance(t, tuple) and t and t[0] == "cmp" and t[1] == "!=" and t[3] == ("const", 0):
+            t = t[2]
+        if isinstance(t, tuple) and t and t[0] == "call" and t[1] == "bool" and t[2]:
+            t = t[2][0]
+    if not (isinstance(t, tuple) and t and t[0] == "binop" and t[1] == "&" and len(t[2]) == 2):
+        return None
+    flag = [x for x in t[2] if match(("sub", W(), ("const", W("f"))), x) is not None and find(x, ("global", "toc_properties"))]
+    if not flag or a[0] != "const" or b[0] != "const":
+        return None
+    mask = [x for x in t[2] if x is not flag[0]][0]
+    return mask, flag[0][2][1], a[1], b[1]
+
+
+def own_mask_canon(ctx, fi, mask, depth=0):
+    """is this canonical value the ToC mask of the segment being parsed: self.toc_mask, something unpacked from the lead-in bytes
+    just read, or a parameter to which every caller passes such a value"""
+    from .sym import Sym
+    from .sem import calls_to, call_arg
+    prog = ctx.prog
+    if mask == ("self", "toc_mask"):
+        return True
+    m = mask
+    while m[0] in ("item", "sub"):
+        m = m[1]
+    if m[0] == "call" and "unpack" in str(m[1]).split(".")[-1]:
+        return True
+    if m[0] == "param" and depth < 2:
+        callers = []
+        for g in prog.functions.values():
+            for c in calls_to(prog, g, fi.qual, g.cls):
+                sy = Sym(prog, g, g.cls)
+                env, _g = sy.env_at(c)
+                a = call_arg(prog, c, fi, m[1], sy, env)
+                callers.append(a is not None and own_mask_canon(ctx, g, a, depth + 1))
+        return bool(callers) and all(callers)
+    return False
+
+
+def _guarded_by_byte_order(prog, flow, fi, node, prefix):
+    """the node runs only when an endianness-like parameter equals `prefix` (guards evaluated for both byte orders)"""
+    from .sym import Sym, eval_cond
+    sy = Sym(prog, fi, fi.cls, inline=False)
+    _env, guards = sy.env_at(node)
+    likes = [("param", p) for p in fi.params if (fi.qual, p) in flow.like]
+    if not likes or not guards:
+        return False
+
+    def runs(order):
+        def orc(c):
+            if isinstance(c, tuple) and len(c) == 4 and c[0] == "cmp" and c[1] == "==":
+                for a, b in ((c[2], c[3]), (c[3], c[2])):
+                    if a in likes and b in (("const", "<"), ("const", ">")):
+                        return b[1] == order
+            return None
+        vals = [eval_cond(g, orc) for g in guards]
+        return not any(v is False for v in vals)
+    other = ">" if prefix == "<" else "<"
+    return runs(prefix) and not runs(other)
+
+
 @rule("BL3", "byte order is threaded through every read-side parse site", floor=40)
 def bl3(ctx, R):
     prog = ctx.prog
@@ -576,6 +674,8 @@ def bl3(ctx, R):
                 R.ok(key, where, "reviewed exception: the ToC mask carries the byte-order flag and is little-endian by specification")
             elif lit is not None and all(ch in "bBx?cs0123456789<>=!@" for ch in lit):
                 R.ok(key, where, "single-byte fields only")
+            elif lit is not None and lit[:1] in ("<", ">") and _guarded_by_byte_order(prog, flow, fi, call, lit[0]):
+                R.ok(key, where, "constant %r format selected by a test of the byte order" % lit[0])
             else:
                 R.violation(key, where, "fixed byte order: format %r does not depend on the segment's endianness" % (lit or unparse(call.args[0])))
             continue
@@ -656,30 +756,6 @@ def bl3(ctx, R):
     from .sym import Sym, show, alpha
     from .sem import match, W, find
 
-    def canonical_derivation(v):
-        """-> (mask, flag name, value if set, value if clear) for a byte-order selection in normal form"""
-        if not (isinstance(v, tuple) and v and v[0] == "phi"):
-            return None
-        t, a, b = v[1], v[2], v[3]
-        if isinstance(t, tuple) and t and t[0] == "cmp" and t[1] == "!=" and t[3] == ("const", 0):
-            t = t[2]
-        if isinstance(t, tuple) and t and t[0] == "call" and t[1] == "bool" and t[2]:
-            t = t[2][0]
-        if not (isinstance(t, tuple) and t and t[0] == "binop" and t[1] == "&" and len(t[2]) == 2):
-            return None
-        flag = [x for x in t[2] if match(("sub", W(), ("const", W("f"))), x) is not None and find(x, ("global", "toc_properties"))]
-        if not flag or a[0] != "const" or b[0] != "const":
-            return None
-        mask = [x for x in t[2] if x is not flag[0]][0]
-        return mask, flag[0][2][1], a[1], b[1]
-
-    def own_mask_canon(mask):
-        if mask == ("self", "toc_mask"):
-            return True
-        m = mask
-        if m[0] in ("item", "sub"):
-            m = m[1]
-        return m[0] == "call" and str(m[1]).split(".")[-1] in ("unpack", "_struct_unpack", "unpack_from")
     derivs = 0
     deriving = set()
     for fi in _funcs_in(prog, READ_SIDE):
@@ -699,9 +775,9 @@ def bl3(ctx, R):
                 env, _g = sy.env_at(nnode)
                 top = sy.expr(e, env)
                 from .sym import collect as _collect
-                cands = _collect(top, lambda x: canonical_derivation(x) is not None)
+                cands = _collect(top, lambda x: canonical_derivation(x, prog, fi.module) is not None)
                 for v in cands[:1]:
-                  cd = canonical_derivation(v)
+                  cd = canonical_derivation(v, prog, fi.module)
                   if cd is None:
                     continue
                   form = alpha(v)
@@ -715,7 +791,7 @@ def bl3(ctx, R):
                   where = fi.where(nnode)
                   if not (flag == "kTocBigEndian" and a == ">" and b == "<"):
                     R.violation(key, where, "`%s`: wrong ToC flag or swapped '>'/'<'" % show(alpha(v))[:120])
-                  elif not own_mask_canon(mask):
+                  elif not own_mask_canon(ctx, fi, mask):
                     R.violation(key, where, "byte order derived from `%s`, which is not this segment's own ToC mask" % show(alpha(mask))[:100])
                   else:
                     R.ok(key, where, "'>' iff own toc_mask & kTocBigEndian")
@@ -743,6 +819,23 @@ def bl3(ctx, R):
                     for v_ in ([n.value.body, n.value.orelse] if isinstance(n.value, ast.IfExp) else [n.value]):
                         kk = prog.resolve_class(gdr.module, v_) if isinstance(v_, (ast.Name, ast.Attribute)) else None
                         ks.append(kk)
+                    if isinstance(n.value, ast.Call):
+                        # reader_class = self._pick_reader_class()
+                        from .flow import resolve_call as _rc
+                        for g, _k in _rc(prog, gdr, gdr.cls, n.value):
+                            for r_ in walk_body(g.node):
+                                if isinstance(r_, ast.Return) and r_.value is not None:
+                                    for v_ in ([r_.value.body, r_.value.orelse] if isinstance(r_.value, ast.IfExp) else [r_.value]):
+                                        kk = prog.resolve_class(g.module, v_) if isinstance(v_, (ast.Name, ast.Attribute)) else None
+                                        if kk is not None:
+                                            ks.append(kk)
+                                        elif isinstance(v_, ast.Name):
+                                            for n2 in walk_body(g.node):
+                                                if isinstance(n2, ast.Assign) and any(isinstance(t, ast.Name) and t.id == v_.id for t in n2.targets):
+                                                    k2 = prog.resolve_class(g.module, n2.value) if isinstance(n2.value, (ast.Name, ast.Attribute)) else None
+                                                    if k2 is not None:
+                                                        ks.append(k2)
+                        ks = [x for x in ks if x is not None]
             if ks and all(kk is not None and prog.is_subclass(kk, base) for kk in ks):
                 ctor_sites += [(c, kk) for kk in ks]
     ctor_calls = [c for c, _k in ctor_sites]
@@ -887,18 +980,16 @@ def _global_value(prog, mod, v, depth=0):
     return v
 
 
-def _endian_scenarios(v, endian_param):
-    """(value when endianness == '<', value when it is '>') of a canonical value"""
+def _endian_scenarios(v, endian_param, prog=None, fi=None):
+    """(value when endianness == '<', value when it is '>') of a canonical value: the parameter is replaced by the constant and the
+    result partially evaluated (comparisons, lookup tables keyed by the comparison, conditionals)"""
     from .sym import simplify
+    from .sem import subst, peval
     out = []
-    for little in (True, False):
-        def orc(c, little=little):
-            if isinstance(c, tuple) and len(c) == 4 and c[0] == "cmp" and c[1] == "==":
-                for a, b in ((c[2], c[3]), (c[3], c[2])):
-                    if a == endian_param and b in (("const", "<"), ("const", ">")):
-                        return (b[1] == "<") == little
-            return None
-        out.append(simplify(v, orc))
+    for order in ("<", ">"):
+        w = subst(v, endian_param, ("const", order))
+        w = peval(prog, fi, w) if prog is not None else w
+        out.append(simplify(w, lambda c: None))
     return out
 
 
@@ -987,8 +1078,8 @@ def bl4(ctx, R):
     EP = ("param", [p for p in fi.params if "endian" in p][0]) if any("endian" in p for p in fi.params) else None
     if EP is None:
         raise AnchorMissing("types.TimeStamp.read: byte order parameter")
-    v = Sym(prog, fi, fi.cls, inline=False).function_value()
-    sc = _endian_scenarios(v, EP)
+    v = Sym(prog, fi, fi.cls).function_value()
+    sc = _endian_scenarios(v, EP, prog, fi)
     if sc[0] == sc[1]:
         raise AnchorMissing("types.TimeStamp.read: branch on the byte order")
     ps = [p for p in tinit.params if p != "self"]
@@ -1024,7 +1115,7 @@ def bl4(ctx, R):
     fi = prog.func("types.TimeStamp.from_bytes")
     EP2 = ("param", [p for p in fi.params if "endian" in p][0])
     v = Sym(prog, fi, fi.cls).function_value()
-    sc = _endian_scenarios(v, EP2)
+    sc = _endian_scenarios(v, EP2, prog, fi)
     if sc[0] == sc[1]:
         raise AnchorMissing("types.TimeStamp.from_bytes: branch on the byte order")
     for which, val in (("<", sc[0]), (">", sc[1])):
